@@ -54,9 +54,9 @@ func runC11(c *eng.Ctx, thorough bool) {
 		logResp := eng.GCallOK(f, `vault\.\(\*AuditBroker\)\.LogResponse$`)
 		// returns reachable after a handler ran that may carry a non-nil response
 		exceptions := map[string]string{
-			"sdk/plugin/pb.LogicalRequestToProtoRequest":  "control-group wrapping: marshalling the already-decoded request; failure returns the unwrapped response before the response audit — no input that makes it fail was found (triage A1); kept as a named exception",
-			"google.golang.org/protobuf/proto.Marshal":    "control-group wrapping: proto.Marshal of the converted request (triage A1)",
-			"sdk/helper/jsonutil.EncodeJSON":              "control-group wrapping: JSON encoding of the entity / control group (triage A1)",
+			"sdk/plugin/pb.LogicalRequestToProtoRequest": "control-group wrapping: marshalling the already-decoded request; failure returns the unwrapped response before the response audit — no input that makes it fail was found (triage A1); kept as a named exception",
+			"google.golang.org/protobuf/proto.Marshal":   "control-group wrapping: proto.Marshal of the converted request (triage A1)",
+			"sdk/helper/jsonutil.EncodeJSON":             "control-group wrapping: JSON encoding of the entity / control group (triage A1)",
 		}
 		nRets := 0
 		for _, h := range handlers {
@@ -258,14 +258,14 @@ func runC11(c *eng.Ctx, thorough bool) {
 		// sensitive fields must positively come out of the sanitiser results
 		c.Clause("R5", "C11.4")
 		sens := map[string]string{
-			"audit.AuditAuth.ClientToken":            `^audit\.Hash(Auth|Response)\(\)#0`,
-			"audit.AuditAuth.Accessor":               `^audit\.Hash(Auth|Response)\(\)#0`,
-			"audit.AuditRequest.ClientToken":         `^audit\.HashRequest\(\)#0`,
-			"audit.AuditRequest.ClientTokenAccessor": `^audit\.HashRequest\(\)#0`,
-			"audit.AuditRequest.Data":                `^audit\.HashRequest\(\)#0`,
-			"audit.AuditResponse.Data":               `^audit\.HashResponse\(\)#0`,
-			"audit.AuditResponseWrapInfo.Token":      `^audit\.HashResponse\(\)#0`,
-			"audit.AuditResponseWrapInfo.Accessor":   `^audit\.HashResponse\(\)#0`,
+			"audit.AuditAuth.ClientToken":                 `^audit\.Hash(Auth|Response)\(\)#0`,
+			"audit.AuditAuth.Accessor":                    `^audit\.Hash(Auth|Response)\(\)#0`,
+			"audit.AuditRequest.ClientToken":              `^audit\.HashRequest\(\)#0`,
+			"audit.AuditRequest.ClientTokenAccessor":      `^audit\.HashRequest\(\)#0`,
+			"audit.AuditRequest.Data":                     `^audit\.HashRequest\(\)#0`,
+			"audit.AuditResponse.Data":                    `^audit\.HashResponse\(\)#0`,
+			"audit.AuditResponseWrapInfo.Token":           `^audit\.HashResponse\(\)#0`,
+			"audit.AuditResponseWrapInfo.Accessor":        `^audit\.HashResponse\(\)#0`,
 			"audit.AuditResponseWrapInfo.WrappedAccessor": `^audit\.HashResponse\(\)#0`,
 		}
 		for _, b := range f.Blocks {
